@@ -13,6 +13,11 @@
                "peerT" / "peerI" (NFC-DEP+LLCP peer acting as target / initiator, answers k LLC exchanges,
                then releases) | "reader" (discovers our emulated Type 3 tag, sends k further commands, leaves)
                | "ioerror" / "unsupported" (the local device raises IOError / UnsupportedTargetError on discovery)
+               | "tagX" (a tag as in "tag" whose ACTIVATION is disturbed: some exchange of the tag type's activation
+               sequence ends in a CommunicationError - timeout, transmission, protocol or broken-link error -
+               once or persistently.  Whether the tag module recovers is the tag module's business; for connect()
+               the activation either yields a tag (on-connect is called) or it does not (the tag is skipped and
+               the loop goes on) - both are allowed, raising is not)
                | "tagU" (a tag as in "tag", on a device that cannot listen: every listen_* raises
                UnsupportedTargetError - a reader-only device, or a Type B card target)
      k         see env
@@ -39,7 +44,7 @@ CONSTANTS MaxOpts,     \* at most this many of rdwr/llcp/card are given (3 every
                        \* larger termAt, so only finite values are explored)
 
 Opt == {"rdwr", "llcp", "card"}
-Envs == {"nothing", "tag", "tagU", "peerT", "peerI", "reader", "ioerror", "unsupported"}
+Envs == {"nothing", "tag", "tagU", "tagX", "peerT", "peerI", "reader", "ioerror", "unsupported"}
 Roles == {"both", "initiator", "target"}
 StartupRes == {"keep", "drop", "wrong"}
 ObjOf(o) == CASE o = "rdwr" -> "tag" [] o = "llcp" -> "llc" [] o = "card" -> "emu"
@@ -215,7 +220,7 @@ Fail == /\ err' = TRUE /\ Goto("ret")
 -----------------------------------------------------------------------------
 \* reader/writer
 SenseRes == IF DeviceFails THEN cfg.env
-            ELSE IF cfg.env \in {"tag", "tagU"} /\ ~gone THEN "tag"
+            ELSE IF cfg.env \in {"tag", "tagU", "tagX"} /\ ~gone THEN "tag"
             ELSE IF cfg.env = "peerT" /\ ~gone THEN "dep"
             ELSE "none"
 
@@ -231,7 +236,9 @@ RdwrSense ==
 RdwrDiscover ==
     /\ pc = "rdwr_disc"
     /\ cb' = Append(cb, CbRec("discover", "rdwr", cfg.disc["rdwr"]))
-    /\ IF cfg.disc["rdwr"] /\ found = "tag" THEN Goto("rdwr_conn") /\ UNCHANGED role
+    /\ IF cfg.disc["rdwr"] /\ found = "tag"
+       THEN \/ Goto("rdwr_conn") /\ UNCHANGED role                      \* nfc.tag.activate() returned a tag
+            \/ cfg.env = "tagX" /\ Enter(AfterPhase("rdwr"))            \* disturbed activation: None, tag skipped
        ELSE Enter(AfterPhase("rdwr"))                 \* refused, or a P2P device no tag type activates
     /\ Step("Discover")
     /\ UNCHANGED <<left, polls, envk, gone, found, ret, led, err, termSeen>>
